@@ -7,6 +7,8 @@
  * Oracles (assumed, with ghost verdict logs): ge_set_xquad, fe_is_square_var, gej_add_ge_var,
  * pedersen_ecmult_small, borromean_verify.  pub_expand is replaced by its call-site contract (its real
  * body is checked in C07.rangeproof_verify).  sha256_write/_finalize: stream contracts of hash_log.h.
+ * scalar_set_b32 / fe_set_b32_limit: call-site stubs (real function at the watched position, proved
+ * invariant elsewhere; see assumed_rangeproof.h RP_STUB_READERS and units C10.leaf_*).
  * The header is decoded a second time by the real secp256k1_rangeproof_getheader_impl, which
  * C10.getheader proves equal to the header specification. */
 #define RP_XQUAD
@@ -15,8 +17,7 @@
 #define RP_PED_SMALL
 #define RP_PUB_EXPAND
 #define RP_BORRO_VERIFY
-#define RP_SET_B32
-#define RP_FE_SET_B32_LIMIT
+#define RP_STUB_READERS
 #include "hash_log.h"
 #include "assumed_rangeproof.h"
 #include "src/secp256k1.c"
